@@ -85,6 +85,10 @@ func runSpec(o runOpts) (*RunResult, *Spec, error) {
 	w.debug = o.debug
 	w.solverBin = o.solver
 	w.solverMs = o.solverMs
+	w.feasMs = 3000
+	if v := os.Getenv("SYMX_FEAS_MS"); v != "" {
+		fmt.Sscanf(v, "%d", &w.feasMs)
+	}
 	w.nativeDiv = os.Getenv("SYMX_NATIVE_DIV") == "1"
 	w.known = loadKnown(spec.Property)
 	var hs []*Harness
@@ -154,6 +158,6 @@ func printSummary(rr *RunResult) {
 			fmt.Printf("   INCONCLUSIVE %s\n", s)
 		}
 	}
-	fmt.Printf("solver: %d queries (%d sat, %d unsat, %d unknown) %.1fs; load %.1fs wall %.1fs\n",
-		rr.SolverQ, rr.SolverSat, rr.SolverUnsat, rr.SolverUnk, rr.SolverS, rr.LoadS, rr.WallS)
+	fmt.Printf("solver: %d queries (%d sat, %d unsat, %d unknown, %d one-shot retries) %.1fs; load %.1fs wall %.1fs\n",
+		rr.SolverQ, rr.SolverSat, rr.SolverUnsat, rr.SolverUnk, rr.Fallbacks, rr.SolverS, rr.LoadS, rr.WallS)
 }
